@@ -11,13 +11,13 @@ var (
 		W: Weights{Alu: 10, Div: 1, Branch: 3, Jump: 2, Call: 1, Loop: 1, Nop: 1}, TakenPct: 50, ZeroRaPct: 10, MaxDyn: 2000}
 	// MEM: loads and stores mixed with ALU code and control flow.
 	MEM = Profile{Name: "MEM", MinLen: 3, MaxLen: 40, PoolMin: 2, PoolMax: 6, MemSizes: midMem,
-		W: Weights{Alu: 6, Div: 1, Load: 4, Store: 4, Branch: 2, Jump: 1, Call: 1, Loop: 1, Nop: 1}, TakenPct: 50, ZeroRaPct: 10, MaxDyn: 2000}
+		W: Weights{Alu: 6, Div: 1, Load: 4, Store: 4, Branch: 2, Jump: 1, Call: 1, Loop: 1, Nop: 1}, TakenPct: 50, ZeroRaPct: 10, MaxDyn: 2000, WidePoolPct: 35}
 	// SHADOW: taken branches and jumps over hostile shadows.
 	SHADOW = Profile{Name: "SHADOW", MinLen: 4, MaxLen: 40, PoolMin: 2, PoolMax: 5, MemSizes: midMem,
-		W: Weights{Alu: 6, Load: 2, Store: 1, Branch: 5, Jump: 3, Loop: 1}, TakenPct: 70, Hostile: true, OOBShadow: true, ErrShadow: true, ZeroRaPct: 8, MaxDyn: 2000}
+		W: Weights{Alu: 6, Load: 2, Store: 1, Branch: 5, Jump: 3, Loop: 1}, TakenPct: 70, Hostile: true, OOBShadow: true, ErrShadow: true, ZeroRaPct: 8, MaxDyn: 2000, WidePoolPct: 35}
 	// WALK: strided loops over memories larger than the caches.
 	WALK = Profile{Name: "WALK", MinLen: 6, MaxLen: 40, PoolMin: 2, PoolMax: 4, MemSizes: bigMem,
-		W: Weights{Alu: 3, Load: 2, Store: 2, Branch: 1, Walk: 4}, TakenPct: 50, ZeroRaPct: 5, MaxDyn: 2500}
+		W: Weights{Alu: 3, Load: 2, Store: 2, Branch: 1, Walk: 4}, TakenPct: 50, ZeroRaPct: 5, MaxDyn: 2500, WidePoolPct: 35}
 	// PRESSURE: two to three registers, dense dependences.
 	PRESSURE = Profile{Name: "PRESSURE", MinLen: 3, MaxLen: 24, PoolMin: 2, PoolMax: 3, MemSizes: smallMem,
 		W: Weights{Alu: 12, Div: 1, Branch: 2, Jump: 1, Loop: 1}, TakenPct: 40, ZeroRaPct: 5, MaxDyn: 1000}
@@ -29,7 +29,7 @@ var (
 	// dispatched.
 	SHADOWSLOW = Profile{Name: "SHADOWSLOW", MinLen: 4, MaxLen: 36, PoolMin: 2, PoolMax: 5, MemSizes: midMem,
 		W: Weights{Alu: 6, Load: 2, Store: 1, Branch: 6, Jump: 2, Loop: 1}, TakenPct: 70, Hostile: true, OOBShadow: true, ErrShadow: true,
-		ZeroRaPct: 8, MaxDyn: 2000, SlowBranchPct: 60}
+		ZeroRaPct: 8, MaxDyn: 2000, SlowBranchPct: 60, WidePoolPct: 35}
 	// PRESSURELOAD: PRESSURE with load producers (loads only, so that no memory
 	// conflict arises): mixed-latency producers are what exercises the
 	// interlocks, forwarding and renaming.
@@ -38,13 +38,13 @@ var (
 	// CACHE: loads and stores over memories larger than every cache, spread over
 	// all lines.
 	CACHE = Profile{Name: "CACHE", MinLen: 8, MaxLen: 60, PoolMin: 2, PoolMax: 5, MemSizes: bigMem,
-		W: Weights{Alu: 3, Load: 5, Store: 5, Branch: 1, Loop: 1, Walk: 3, EvictReread: 1}, TakenPct: 50, ZeroRaPct: 5, MaxDyn: 3000, LineSpread: true}
+		W: Weights{Alu: 3, Load: 5, Store: 5, Branch: 1, Loop: 1, Walk: 3, EvictReread: 1}, TakenPct: 50, ZeroRaPct: 5, MaxDyn: 3000, LineSpread: true, WidePoolPct: 35}
 	// TAIL body.
 	TAIL = Profile{Name: "TAIL", MinLen: 0, MaxLen: 16, PoolMin: 2, PoolMax: 5, MemSizes: midMem,
-		W: Weights{Alu: 6, Load: 3, Store: 3, Branch: 1, Loop: 1}, TakenPct: 50, ZeroRaPct: 5, MaxDyn: 1500, LineSpread: true}
+		W: Weights{Alu: 6, Load: 3, Store: 3, Branch: 1, Loop: 1}, TakenPct: 50, ZeroRaPct: 5, MaxDyn: 1500, LineSpread: true, WidePoolPct: 35}
 	// PAIR filler.
 	PAIR = Profile{Name: "PAIR", MinLen: 0, MaxLen: 30, PoolMin: 3, PoolMax: 5, MemSizes: []int{256, 1024, 4096},
-		W: Weights{Alu: 8, Load: 1, Branch: 1}, TakenPct: 50, ZeroRaPct: 5, MaxDyn: 1500}
+		W: Weights{Alu: 8, Load: 1, Branch: 1}, TakenPct: 50, ZeroRaPct: 5, MaxDyn: 1500, WidePoolPct: 35}
 	// ERR prefix.
 	ERR = Profile{Name: "ERR", MinLen: 0, MaxLen: 16, PoolMin: 2, PoolMax: 5, MemSizes: midMem,
 		W: Weights{Alu: 8, Load: 2, Store: 1, Branch: 2, Jump: 1, Loop: 1}, TakenPct: 50, ZeroRaPct: 5, MaxDyn: 1500}
@@ -53,14 +53,14 @@ var (
 	// store-miss-then-fill arises: the profile that keeps memory programs
 	// judged at parallelism >= 2.
 	MEMSAFE = Profile{Name: "MEMSAFE", MinLen: 4, MaxLen: 40, PoolMin: 3, PoolMax: 6, MemSizes: midMem,
-		W: Weights{Alu: 8, Load: 4, Store: 3, Branch: 2, Jump: 1, Loop: 1}, TakenPct: 50, ZeroRaPct: 5, MaxDyn: 2000, LineSpread: true, SplitHalves: true}
+		W: Weights{Alu: 8, Load: 4, Store: 3, Branch: 2, Jump: 1, Loop: 1}, TakenPct: 50, ZeroRaPct: 5, MaxDyn: 2000, LineSpread: true, SplitHalves: true, WidePoolPct: 35}
 )
 
 // OWNER: ownership and contention — lines owned by one core, shared lines
 // upgraded, and memory work that waits behind a miss while a younger control
 // transfer redirects the pipeline (Builder.Behind), mixed with ordinary code.
 var OWNER = Profile{Name: "OWNER", MinLen: 6, MaxLen: 40, PoolMin: 3, PoolMax: 6, MemSizes: []int{512, 1024, 4096},
-	W: Weights{Alu: 6, Load: 2, Store: 2, Branch: 1, Jump: 1, Behind: 4}, TakenPct: 50, ZeroRaPct: 5, MaxDyn: 2000, NoSubword: false}
+	W: Weights{Alu: 6, Load: 2, Store: 2, Branch: 1, Jump: 1, Behind: 4}, TakenPct: 50, ZeroRaPct: 5, MaxDyn: 2000, NoSubword: false, WidePoolPct: 35}
 
 // PRESSUREMEM: PRESSURELOAD plus stores to the other half of memory (no memory
 // conflict arises): a store that misses keeps a write unit busy for the memory
